@@ -115,3 +115,46 @@ func inlineErrorClosures(info *types.Info, body *ast.BlockStmt) *ast.BlockStmt {
 	}
 	return rewriteBlock(body)
 }
+
+// nestGuardClauses rewrites `if c { …leave }; rest…` as `if c { …leave } else { rest… }`, recursively, so that rules
+// which walk nested if/else arms see the guard-clause spelling of a function the same way as the nested one. The
+// statement nodes are shared with the original tree.
+func nestGuardClauses(list []ast.Stmt) []ast.Stmt {
+	var out []ast.Stmt
+	for i, st := range list {
+		switch t := st.(type) {
+		case *ast.IfStmt:
+			c := *t
+			c.Body = &ast.BlockStmt{Lbrace: t.Body.Lbrace, List: nestGuardClauses(t.Body.List), Rbrace: t.Body.Rbrace}
+			switch e := t.Else.(type) {
+			case *ast.BlockStmt:
+				c.Else = &ast.BlockStmt{Lbrace: e.Lbrace, List: nestGuardClauses(e.List), Rbrace: e.Rbrace}
+			case *ast.IfStmt:
+				if nested := nestGuardClauses([]ast.Stmt{e}); len(nested) == 1 {
+					c.Else = nested[0]
+				}
+			case nil:
+				if alwaysLeaves(t.Body) && i+1 < len(list) {
+					rest := nestGuardClauses(list[i+1:])
+					c.Else = &ast.BlockStmt{Lbrace: list[i+1].Pos(), List: rest, Rbrace: list[len(list)-1].End()}
+					out = append(out, &c)
+					return out
+				}
+			}
+			out = append(out, &c)
+		case *ast.BlockStmt:
+			out = append(out, &ast.BlockStmt{Lbrace: t.Lbrace, List: nestGuardClauses(t.List), Rbrace: t.Rbrace})
+		case *ast.ForStmt:
+			c := *t
+			c.Body = &ast.BlockStmt{Lbrace: t.Body.Lbrace, List: nestGuardClauses(t.Body.List), Rbrace: t.Body.Rbrace}
+			out = append(out, &c)
+		case *ast.RangeStmt:
+			c := *t
+			c.Body = &ast.BlockStmt{Lbrace: t.Body.Lbrace, List: nestGuardClauses(t.Body.List), Rbrace: t.Body.Rbrace}
+			out = append(out, &c)
+		default:
+			out = append(out, st)
+		}
+	}
+	return out
+}
